@@ -6,7 +6,6 @@ import (
 	"context"
 	"fmt"
 	"math"
-	"os"
 	"sort"
 	"strings"
 	"sync"
@@ -105,10 +104,13 @@ func c21Spawn(n int, opts ...RouterOption) *c21Router {
 			var dump []string
 			for id, rp := range rt.impl.routeesMap {
 				_, inTree := sys.tree().node(id)
-				dump = append(dump, fmt.Sprintf("%s state=%b inTree=%v proc=%d", rp.Name(), rp.state.Load(), inTree, rp.ProcessedCount()))
+				dump = append(dump, fmt.Sprintf("%s state=%b inTree=%v", rp.Name(), rp.state.Load(), inTree))
 			}
 			sort.Strings(dump)
-			panic(fmt.Sprintf("c21: routee %d not running (%s); router running=%v routeesMap=%d children=%d treeCount=%d now=%v dump=%v", i, st, pid.IsRunning(), len(rt.impl.routeesMap), len(pid.Children()), sys.tree().count(), time.Now(), dump))
+			msg := fmt.Sprintf("after SpawnRouter + quiescence routee %d of %d is not running (%s); router running=%v routeesMap=%d children=%d treeCount=%d %v",
+				i, n, st, pid.IsRunning(), len(rt.impl.routeesMap), len(pid.Children()), sys.tree().count(), dump)
+			_ = vfStopSystem(sys) // leave no blocked goroutine behind
+			panic(c21SetupFailure(msg))
 		}
 		rt.routees = append(rt.routees, p)
 	}
@@ -130,6 +132,30 @@ func (rt *c21Router) index(name string) int {
 	return -1
 }
 
+
+// c21SetupFailure: the scenario's precondition (a router with n running routees at quiescence) was not
+// reached. That is no verdict about the routing property: the execution is retried and, if it keeps
+// failing, counted as invalid (never as a violation).
+type c21SetupFailure string
+
+// c21Bubble runs one case in a bubble; reset clears the case's accumulators before every attempt.
+// ok=false: no verdict (setup failed three times).
+func c21Bubble(t *testing.T, e *vsched.Enum, input string, reset func(), f func()) (panicked any, ok bool) {
+	for attempt := 1; ; attempt++ {
+		reset()
+		p := vfBubble(t, f)
+		sf, isSetup := p.(c21SetupFailure)
+		if !isSetup {
+			return p, true
+		}
+		vsched.Rep().Note("%s: %s: setup attempt %d failed: %s", e.St.Name, input, attempt, string(sf))
+		if attempt == 3 {
+			e.St.Invalid++
+			e.St.InvalidReasons["router setup failed (routee not running after spawn)"]++
+			return nil, false
+		}
+	}
+}
 
 func TestVerifC21(t *testing.T) {
 	defer vsched.Finish(t)
@@ -209,7 +235,7 @@ func c21RRSelect(t *testing.T, r *vsched.Report) {
 			msgs := 2*n + 4
 			input := fmt.Sprintf("routees=%d counter=%d messages=%d", n, start, msgs)
 			var obs strings.Builder
-			p := vfBubble(t, func() {
+			p, valid := c21Bubble(t, e, input, func() { obs.Reset() }, func() {
 				rt := c21Spawn(n, WithRoutingStrategy(RoundRobinRouting))
 				defer rt.stop()
 				rt.impl.roundRobinNext = start
@@ -260,6 +286,9 @@ func c21RRSelect(t *testing.T, r *vsched.Report) {
 					fmt.Fprintf(&obs, "%d,", idx)
 				}
 			})
+			if !valid {
+				continue
+			}
 			if p != nil {
 				e.Fail("rr-harness-panic", input, "%s: %v", input, p)
 			}
@@ -296,7 +325,7 @@ func c21RRBroadcast(t *testing.T, r *vsched.Report) {
 			msgs := 2*n + 4
 			input := fmt.Sprintf("routees=%d counter=%d broadcasts=%d", n, start, msgs)
 			var obs strings.Builder
-			p := vfBubble(t, func() {
+			p, valid := c21Bubble(t, e, input, func() { obs.Reset() }, func() {
 				rt := c21Spawn(n, WithRoutingStrategy(RoundRobinRouting))
 				defer rt.stop()
 				rt.impl.roundRobinNext = start
@@ -334,6 +363,9 @@ func c21RRBroadcast(t *testing.T, r *vsched.Report) {
 					}
 				}
 			})
+			if !valid {
+				continue
+			}
 			if p != nil {
 				e.Fail("rr-harness-panic", input, "%s: %v", input, p)
 			}
@@ -400,21 +432,10 @@ func c21LiveRoutees(rt *c21Router) []string {
 
 func c21RunFanOut(t *testing.T, e *vsched.Enum, n int, prog string) {
 	input := fmt.Sprintf("routees=%d program=%s", n, prog)
-	if os.Getenv("VERIF_C21_TRACE") != "" {
-		fmt.Fprintln(os.Stderr, "c21 fanout:", input)
-	}
 	var obs strings.Builder
 	broadcasts := 0
 	resized := false
-	p := vfBubble(t, func() {
-		if os.Getenv("VERIF_C21_TRACE") != "" {
-			defer func() {
-				if pv := recover(); pv != nil {
-					fmt.Fprintln(os.Stderr, "c21 fanout closure panic:", pv)
-					panic(pv)
-				}
-			}()
-		}
+	p, valid := c21Bubble(t, e, input, func() { obs.Reset(); broadcasts = 0; resized = false }, func() {
 		rt := c21Spawn(n) // default strategy = FanOutRouting
 		defer rt.stop()
 		expect := map[int][]string{} // message id -> live routees at send time
@@ -468,6 +489,9 @@ func c21RunFanOut(t *testing.T, e *vsched.Enum, n int, prog string) {
 			fmt.Fprintf(&obs, "m%d->%d;", m, len(expect[m]))
 		}
 	})
+	if !valid {
+		return
+	}
 	if p != nil {
 		e.Fail("fanout-harness-panic", input, "%s: %v", input, p)
 	}
@@ -625,7 +649,7 @@ func c21HashRouter(t *testing.T, r *vsched.Report) {
 				input := fmt.Sprintf("routees=%d virtualNodes=%d remove=%d keys=%d", n, vn, victim, nKeys)
 				var obs strings.Builder
 				sent := 0
-				p := vfBubble(t, func() {
+				p, valid := c21Bubble(t, e, input, func() { obs.Reset(); sent = 0 }, func() {
 					opts := []RouterOption{WithConsistentHashRouter(extractor)}
 					if vn > 0 {
 						opts = append(opts, WithConsistentHashVirtualNodes(vn))
@@ -695,6 +719,9 @@ func c21HashRouter(t *testing.T, r *vsched.Report) {
 					}
 					fmt.Fprintf(&obs, "|%v", o3)
 				})
+				if !valid {
+					continue
+				}
 				if p != nil {
 					e.Fail("chash-harness-panic", input, "%s: %v", input, p)
 				}
